@@ -2,22 +2,30 @@
 from sa.core import Repo, Report, EDGELIST
 from . import common
 
-EXPLANATION = ("static analysis of the two parsers and read_ids against the format tables: the comment is cut "
-               "(find / p >= 0 / slice) before strip().split(delimiter); the field-count filter of the format (< 3, "
-               "resp. != 4) skips a row before its columns are popped in table order; nodetype / timestamptype are "
-               "applied inside try blocks that re-raise TypeError and no comparison touches a time column before its "
-               "conversion; with keys every time column is remapped after conversion and before add_interaction; "
-               "read_ids applies the same cut/strip/split/filter and collects exactly the time columns of the format; "
-               "compact_timeslot is {v: i for i, v in enumerate(sorted(X))}")
+EXPLANATION = ("static analysis: parse_snapshots, parse_interactions and read_ids are interpreted abstractly on a structural "
+               "model of text lines (fields as symbolic tokens, surrounding blanks, trailing newline, comment marker at "
+               "column 0 or after the fields; find / slice / len / strip / split(delimiter[, maxsplit]) modelled for "
+               "delimiter=None and an explicit delimiter; conversions are opaque callables that may fail with an arbitrary "
+               "exception; the graph is a recording object).  For every row shape of the grammar x delimiter x nodetype / "
+               "timestamptype / keys given or not the outcome must be: skipped silently, or exactly one add_interaction "
+               "with the converted / ranked fields of the right columns, or TypeError when a conversion fails; read_ids "
+               "must rank exactly the time fields of the rows the parser accepts; compact_timeslot is interpreted on "
+               "three symbolic timestamps in every order (incl. negative ones when it compares with literals) and must "
+               "return their ranks")
 
 
 def run(repo: Repo, tier, rep: Report):
-    from sa.fileformat import check_file_format, check_compact_timeslot
-    n = check_file_format(repo, rep, "snapshots", parts=("reader", "parser"))
-    n += check_file_format(repo, rep, "interactions", parts=("reader", "parser"))
-    n += check_compact_timeslot(repo, rep)
-    rep.floor("parser rule instances", n, 45)
-    for o in rep.obligations[:4]:
-        rep.sample(dict(engine="S3", rule=o.rule, construct=o.construct, what=o.what))
-    rep.assume("format tables (columns, field counts) are taken from the docstrings and the property statement",
-               "str.find / strip / split semantics; a strictly increasing map onto 0..k-1 is what enumerate(sorted(set)) yields")
+    from sa.line_model import check_parser, check_read_ids, check_compact_timeslot
+    from sa.fileformat import check_file_format
+    n = check_parser(repo, rep, "snapshots") + check_parser(repo, rep, "interactions")
+    rep.floor("parser cases interpreted", n, 200)
+    m = check_read_ids(repo, rep)
+    rep.floor("read_ids files interpreted", m, 4)
+    k = check_compact_timeslot(repo, rep)
+    rep.floor("compact_timeslot cases", k, 30)
+    check_file_format(repo, rep, "snapshots", parts=("reader",))
+    check_file_format(repo, rep, "interactions", parts=("reader",))
+    rep.stats["exhaustive"] = True
+    rep.assume("row grammar: valid / 4-column / extra column / short / trailing comment / comment only / empty / bare newline / "
+               "blanks only / padded / no newline; the comment marker is a single token not contained in a field",
+               "str.find / strip / split semantics as modelled in sa/line_model.py; one row at a time (rows are independent)")
